@@ -888,6 +888,7 @@ impl Version {
                 if first_key <= sst.first_key.as_slice()
                     && sst.last_key.as_slice() <= last_key
                     && !compaction.inputs.contains(&Setsum::from_digest(sst.setsum))
+                    && self.expansion_keeps_inputs_closed(compaction, level, sst)
                 {
                     to_add.push(sst);
                 }
@@ -911,6 +912,44 @@ impl Version {
                 compaction.inputs.append(&mut to_add);
             }
         }
+    }
+
+    /// Adding `sst` of `level` to the inputs moves its data down to the upper level.  That is
+    /// sound only when no file that stays behind is consulted after `sst` for a key they share:
+    /// every overlapping file of the levels between `level` and the upper level, and every
+    /// overlapping sibling of its own level (in level 0: every overlapping file that is not
+    /// newer), must already be an input.  Otherwise newer versions would end up below older
+    /// ones, and a tombstone could be collected while a value it shadows survives.
+    fn expansion_keeps_inputs_closed(
+        &self,
+        compaction: &CompactionCore,
+        level: usize,
+        sst: &SstMetadata,
+    ) -> bool {
+        for (idx, this_level) in self
+            .levels
+            .iter()
+            .enumerate()
+            .take(compaction.upper_level)
+            .skip(level)
+        {
+            for other in this_level.ssts.iter() {
+                if other.setsum == sst.setsum
+                    || other.first_key > sst.last_key
+                    || sst.first_key > other.last_key
+                    || compaction
+                        .inputs
+                        .contains(&Setsum::from_digest(other.setsum))
+                {
+                    continue;
+                }
+                if idx == 0 && idx == level && other.biggest_timestamp > sst.biggest_timestamp {
+                    continue;
+                }
+                return false;
+            }
+        }
+        true
     }
 
     fn may_choose_compaction(&self, core: &CompactionCore) -> bool {
